@@ -361,6 +361,36 @@ def build(tier="quick", seed=0):
                         lambda p: (p.value == ("old", "new", "new", "new", "through the view", "through the view"), f"g.x before / after the member was assigned / in _asdict() / in extend_record(g) / member after g.x = ... / g.x: {p.value}")),
                         replay=lambda w: {"call": "c15_grouped_view", "args": {}}, functions=FU, mode="concrete history on one grouped record"))
 
+    # a copy into another descriptor (RecordDescriptor.init_from_record) takes the values of the fields both sides have - from a plain record and from a grouped one (its flat view, first member wins)
+    x = z3.Int("copy_x")
+    for kind in ("plain", "grouped", "grouped in grouped"):
+        name = f"C15.copy[init_from_record, {kind} source]"
+
+        def th_copy(kind=kind):
+            A = it.call(RD, ["c15/ca", [("varint", "n"), ("string", "s")]], {})
+            B = it.call(RD, ["c15/cb", [("string", "s"), ("string", "t")]], {})
+            T = it.call(RD, ["c15/ct", [("string", "t"), ("varint", "n"), ("string", "zz")]], {})
+            a = it.call(A, [], {"n": SInt(x), "s": "from a", "_source": "src-a", "_classification": "cls-a"})
+            b = it.call(B, [], {"s": "from b", "t": "tee"})
+            if kind == "plain":
+                src, want = a, {"t": None, "n": ("sym", x), "zz": None}
+            elif kind == "grouped":
+                src, want = it.call(base.g["GroupedRecord"], ["c15/cg", [a, b]], {}), {"t": "tee", "n": ("sym", x), "zz": None}
+            else:
+                inner = it.call(base.g["GroupedRecord"], ["c15/ci", [a]], {})
+                src, want = it.call(base.g["GroupedRecord"], ["c15/cg", [inner, b]], {}), {"t": "tee", "n": ("sym", x), "zz": None}
+            r = it.call(it.getattr_(T, "init_from_record"), [src], {})
+            return {k: it.unbase(r.attrs.get(k)) for k in ("t", "n", "zz", "_source", "_classification")}, want
+
+        def judge_copy(p):
+            got, want = p.value
+            if got["_source"] != "src-a" or got["_classification"] != "cls-a" or got["t"] != want["t"] or got["zz"] is not None:
+                return False, f"the copy holds {got!r}; the source has t={want['t']!r}, _source='src-a', _classification='cls-a'"
+            n_ = got["n"]
+            return (it.zint(n_) == x) if n_ is not None else False, f"the copy holds n={n_!r}, the source has the symbolic x"
+
+        pack.add(Obligation(name, lambda tier, name=name, th_copy=th_copy, judge_copy=judge_copy: prove_paths(name, th_copy, judge_copy, lambda m_, p: {"x": model_value(m_, x)}), replay=lambda w, kind=kind: {"call": "c15_copy", "args": {"kind": kind, "x": w.get("x") if isinstance(w.get("x"), int) else 3}}, functions=FU + ("flow.record.base:RecordDescriptor.init_from_record", "flow.record.base:RecordDescriptor.init_from_dict"), mode="representative shapes, symbolic value"))
+
     # composition is decided by the descriptors' fields, also for two descriptors whose identifiers coincide (same name, same unseparated field text)
     def th_colliding():
         A = it.call(RD, ["c15/col", [("wstring", "x")]], {})
